@@ -1,6 +1,142 @@
-(* C10 — the rendered flamegraph is well formed and accounts for every sample.  Headline theorems only. *)
-From Pyro Require Import Model.Base Model.Tree Model.Cappedarr Model.Flame.
+(* C10 — the rendered flamegraph is well formed and accounts for every sample.
+   Headline theorems only; lemmas in Proofs/FlameProofs.v, model in Model/Flame.v + Model/Cappedarr.v.
 
-Theorem C10_numticks : forall maxNodes t, fb_numticks (flamebearer maxNodes t) = t_total t.
+   [flamebearer n t] is the model of Tree.FlamebearerStruct(n).  [fb_bars n t] are its bars level by
+   level with ABSOLUTE offsets, (x, total, self, name index); C10_decode says that undoing the delta
+   encoding of the returned structure yields exactly these bars, so every statement below is a
+   statement about the decoded output.  All theorems hold for every tree and every budget n >= 1 (the
+   budget hypothesis is kept in the statements although the model does not need it: Go panics for n = 0).
+   Hypothesis t_subb: total >= self + children totals at every node — what insert / merge / decode /
+   scale produce (C09); t_exactb (equality) is what unscaled storage trees satisfy. *)
+From Pyro Require Import Model.Base Model.Tree Model.Cappedarr Model.Flame Proofs.TreeProofs Proofs.FlameProofs.
+
+Theorem C10_numticks : forall n t, fb_numticks (flamebearer n t) = t_total t.
 Proof. reflexivity. Qed.
 Print Assumptions C10_numticks.
+
+(* delta encoding is undone by the decoder, for arbitrary bars *)
+Theorem C10_delta_roundtrip : forall ls, decode_levels (map (delta_enc 0%Z) ls) = Some (map (map zbar_of) ls).
+Proof. exact decode_levels_enc. Qed.
+Print Assumptions C10_delta_roundtrip.
+
+Theorem C10_decode : forall n t,
+  decode_levels (fb_levels (flamebearer n t)) = Some (map (map zbar_of) (fb_bars n t)).
+Proof. exact fb_decode. Qed.
+Print Assumptions C10_decode.
+
+(* the threshold never exceeds the root total, so the root is always drawn *)
+Theorem C10_threshold_le : forall n t, t_subb t = true -> t_minval n t <= t_total t.
+Proof. exact t_minval_le. Qed.
+Print Assumptions C10_threshold_le.
+
+(* level 0 is a single bar [0, total), carrying name index 0 *)
+Theorem C10_root : forall n t, (1 <= n)%nat -> t_subb t = true ->
+  nth 0 (fb_bars n t) [] = [(0, t_total t, t_self t, O)] /\ fb_bars n t <> [].
+Proof. exact fb_root. Qed.
+Print Assumptions C10_root.
+
+(* every bar at level l+1 lies inside [x + self, x + total) of a bar at level l *)
+Theorem C10_nesting : forall n t l b, (1 <= n)%nat -> t_subb t = true ->
+  In b (nth (S l) (fb_bars n t) []) ->
+  exists p, In p (nth l (fb_bars n t) []) /\
+            bar_x p + bar_self p <= bar_x b /\ bar_x b + bar_total b <= bar_x p + bar_total p.
+Proof. exact fb_nesting. Qed.
+Print Assumptions C10_nesting.
+
+(* the bars of a level are in ascending order, pairwise disjoint, and lie in [0, total):
+   asc_in lo hi [b1;..;bk]  :=  lo <= x1, x1+t1 <= x2, .., xk+tk <= hi *)
+Theorem C10_disjoint : forall n t l, (1 <= n)%nat -> t_subb t = true ->
+  asc_in 0 (t_total t) (nth l (fb_bars n t) []).
+Proof. exact fb_disjoint. Qed.
+Print Assumptions C10_disjoint.
+
+(* every name index is valid; names[0] is "total"; each bar's index resolves, in the name cache
+   (= names with entry 0 replaced by the root's own name), to the name of the frame it was drawn for *)
+Theorem C10_names : forall n t,
+  idx_ok (length (fb_names (flamebearer n t))) (fb_bars n t) /\
+  (fb_bars n t <> [] -> nth 0 (fb_names (flamebearer n t)) [] = total_name) /\
+  (forall v, In v (fb_V n t) -> nth (idx_in (fb_keys n t) (vb_name v)) (fb_keys n t) [] = vb_name v) /\
+  fb_names (flamebearer n t) = fb_out_names (fb_keys n t).
+Proof. exact fb_names_ok. Qed.
+Print Assumptions C10_names.
+
+(* the self values of all bars, `other` bars included, add up to the total *)
+Theorem C10_conservation : forall n t, (1 <= n)%nat -> t_exactb t = true ->
+  sum_selfs (concat (fb_bars n t)) = t_total t.
+Proof. exact fb_conservation. Qed.
+Print Assumptions C10_conservation.
+
+(* Full statement for floor-scaled trees would be
+     forall n t, (1 <= n)%nat -> t_subb t = true -> sum_selfs (concat (fb_bars n t)) = t_total t
+   which is false (C10_conservation_scaled_refuted): scaling floors every value independently, so the
+   children of a node may sum to less than its total (C09 states "equality unless scaled").
+   Proved instead, with the hypothesis weakened from t_exactb to t_subb and "=" to "<=": *)
+Theorem C10_conservation_scaled_partial : forall n t, (1 <= n)%nat -> t_subb t = true ->
+  sum_selfs (concat (fb_bars n t)) <= t_total t.
+Proof. exact fb_conservation_sub. Qed.
+Print Assumptions C10_conservation_scaled_partial.
+
+Definition ex_scaled : tnode :=
+  t_clone 1 2 (TNode [] 0 3 [TNode [97] 1 1 []; TNode [98] 1 1 []; TNode [99] 1 1 []]).
+
+Theorem C10_conservation_scaled_refuted :
+  exists n t, (1 <= n)%nat /\ t_subb t = true /\ sum_selfs (concat (fb_bars n t)) <> t_total t.
+Proof. exists 1024%nat, ex_scaled. split; [lia|]. split; [reflexivity|]. vm_compute. discriminate. Qed.
+Print Assumptions C10_conservation_scaled_refuted.
+
+(* which frames have a bar.  [fbars th 0 t] is the set of (level, total, self, name):
+     - the root;
+     - every child c of a drawn frame with total c >= th (one level down), recursively;
+     - for every drawn frame whose children below th have a non-zero summed total S: one bar
+       (other, S, S) one level down.
+   A frame literally named `other` follows the same rule.  th is the budget threshold t_minval n t
+   (cappedarr: the n-th largest total seen by the pruned walk, 0 when the walk visited <= n nodes). *)
+Theorem C10_shown_iff : forall n t, (1 <= n)%nat -> t_subb t = true -> forall l tot s name,
+  (exists x, In (x, tot, s, idx_in (fb_keys n t) name) (nth l (fb_bars n t) []) /\
+             nth (idx_in (fb_keys n t) name) (fb_keys n t) [] = name)
+  <-> fbars (t_minval n t) O t (l, tot, s, name).
+Proof. exact fb_shown_iff. Qed.
+Print Assumptions C10_shown_iff.
+
+(* ... and since totals decrease downwards, "every frame on the way reaches th" is just "the frame
+   reaches th": every descendant at depth d with total >= th is in the set *)
+Theorem C10_shown_total : forall th d t n, desc_at d t n -> t_subb t = true -> th <= t_total n -> forall lvl,
+  fbars th lvl t ((lvl + d)%nat, t_total n, t_self n, t_name n).
+Proof. exact fbars_desc. Qed.
+Print Assumptions C10_shown_total.
+
+(* the visit sequence of the loop vs. the frame set, for any threshold and any tree *)
+Theorem C10_visit_frames : forall th t, root_shown th t = true -> forall x lvl f,
+  In f (map vproj (fb_visit th t x lvl)) <-> fbars th lvl t f.
+Proof. exact fb_visit_frames. Qed.
+Print Assumptions C10_visit_frames.
+
+(* ---- non-vacuity: a tree with ties, a frame literally named `other`, zero-valued frames and the
+   same name at two depths; with budget 3 two `other` bars are synthesised -------------------------- *)
+Definition ex_t : tnode :=
+  TNode [] 1 12 [TNode [] 5 6 [TNode [120] 1 1 []];
+                 TNode [98] 2 5 [TNode other_name 0 0 []; TNode [255; 0] 3 3 []];
+                 TNode total_name 0 0 []; TNode [120] 0 0 []].
+
+Example C10_nonvacuous :
+  t_exactb ex_t = true /\ t_subb ex_t = true /\ t_minval 3 ex_t = 5 /\
+  fb_bars 3 ex_t = [[(0, 12, 1, 0%nat)];
+                    [(1, 6, 5, 0%nat); (7, 5, 2, 1%nat)];
+                    [(6, 1, 1, 2%nat); (9, 3, 3, 2%nat)]] /\
+  fb_names (flamebearer 3 ex_t) = [total_name; [98]; other_name] /\
+  fb_levels (flamebearer 3 ex_t) = [[0; 12; 1; 0]; [1; 6; 5; 0; 0; 5; 2; 1]; [6; 1; 1; 2; 2; 3; 3; 2]]%Z /\
+  sum_selfs (concat (fb_bars 3 ex_t)) = 12 /\
+  fbars (t_minval 3 ex_t) 0 ex_t (2%nat, 3, 3, other_name).
+Proof.
+  repeat split; try (vm_compute; reflexivity).
+  apply (fbars_child _ 0 ex_t (TNode [98] 2 5 [TNode other_name 0 0 []; TNode [255; 0] 3 3 []])).
+  - right. left. reflexivity.
+  - vm_compute. discriminate.
+  - apply (fbars_other (t_minval 3 ex_t) 1 (TNode [98] 2 5 [TNode other_name 0 0 []; TNode [255; 0] 3 3 []])).
+    vm_compute. discriminate.
+Qed.
+
+Example C10_conservation_scaled_nonvacuous :
+  t_subb ex_scaled = true /\ t_exactb ex_scaled = false /\
+  sum_selfs (concat (fb_bars 1024 ex_scaled)) = 0 /\ t_total ex_scaled = 1.
+Proof. vm_compute. repeat split. Qed.
